@@ -26,6 +26,11 @@ def run(ev, vd):
                 for hosts in (1, 2, 3, 4):
                     for rep in range(reps if hosts > 1 else 1):
                         out.append((pol, hosts, distrun.gen_graph(rng, pol.startswith("sym")), rng.randrange(1 << 30)))
+            # large graphs with hubs (counts only): multi-threaded construction, hybrid-cut thresholds
+            big = distrun.gen_big_graph(rng)
+            for pol in (distrun.POLICIES if tier() == "thorough" else ["oec", "hovc", "cvc", "ginger-o", "fennel-o", "fennel-i", "sugar-o"]):
+                for hosts in ((2, 3, 4) if tier() == "thorough" else (2, 4)):
+                    out.append((pol, hosts, big, 3 + 4 * rng.randrange(1 << 20)))      # seed % 4 == 3: four threads per host
             return out
         c18.cases = more
         try:
@@ -38,7 +43,7 @@ def run(ev, vd):
     ev.cov["rule"] = ("one case = one (graph, partition policy, host count) MPI run whose per-host local graphs are dumped through the public "
                       "DistGraph API; distinct = distinct cases; non-trivial = at least two hosts")
     ev.assumptions += [
-        "graphs have at most 13 nodes and about 40 edges (complete dumps are judged by TLC); 32-bit edge data",
+        "complete dumps (judged by TLC) for graphs with at most 13 nodes; graphs with 3000-9000 nodes and hubs above the hybrid-cut threshold are judged from per-host counts (edges and masters add up, id maps, mirror lists, edge-cut placement); 32-bit edge data",
         "read-balancing options other than the default, masters files, saved local graphs and MiningPartitioner are not exercised",
         "cartesian / hybrid vertex-cut specific placement rules are not checked beyond the common promises; edge cuts are (edges stored with the master of their source resp. destination)"]
     ev.cov["engines"] = ["free", "tv"]
